@@ -1,3 +1,4 @@
+import Rio.Model.KvfsFs
 import Driver.Parse
 import Rio.Model.ZipHdr
 import Rio.Model.Zip
@@ -201,6 +202,38 @@ def kvfsEngine : List String → String
       | some w => if w.staged.isSome then "1" else "0"
       | none => "?"
     s!"res={res} final={fin} staging={stg}"
+  | _ => "bad-op"
+
+/-- `kvfs2 <excl 0|1> <sameName 0|1> <sameWare 0|1> <nA> <nB> <pause>` — two writers on one address over the shared
+    staging namespace (Rio/Model/KvfsFs.lean): A opens and writes `pause` chunks, B runs from open to cleanup, A runs
+    to its end. Reports both outcomes, what a reader finds after B and after A, and the staging names left. -/
+def kvfs2Engine : List String → String
+  | [ex, sn, sw, na, nb, pz] =>
+    match na.toNat?, nb.toNat?, pz.toNat? with
+    | some nA, some nB, some pause =>
+      if pause ≥ nA then "bad-op" else
+      let csA : List Chunk := (List.range nA).map (fun i => Chunk.body (100 + i))
+      let csB : List Chunk := if sw = "1" then csA else (List.range nB).map (fun i => Chunk.body (200 + i))
+      let a := mkFWriter [1] 1 csA
+      let b := mkFWriter [1] (if sn = "1" then 1 else 2) csB
+      let excl := ex = "1"
+      let stepsA1 : List (Nat × Fault) := List.replicate (1 + pause) (0, .ok)
+      let stepsB : List (Nat × Fault) := List.replicate (1 + csB.length + 4) (1, .ok)
+      let stepsA2 : List (Nat × Fault) := List.replicate (nA - pause + 4) (0, .ok)
+      let s1 := frun excl (fsInit [a, b]) (stepsA1 ++ stepsB)
+      let s2 := frun excl s1 stepsA2
+      let label (s : FsState) : String := match readFinal s [1] with
+        | none => "absent"
+        | some cells => if cells = csA.map some then "X" else if cells = csB.map some then "Y" else "partial"
+      let res (s : FsState) (i : Nat) : String := match s.writers[i]? with
+        | some w => (match w.pc with
+          | .done none => "ok"
+          | .done (some c) => "err " ++ c.tok
+          | _ => "running")
+        | none => "?"
+      let stg := ([1, 2].filter (fun n => (s2.staging n).isSome)).length
+      s!"resA={res s2 0} resB={res s1 1} afterB={label s1} afterA={label s2} staging={stg}"
+    | _, _, _ => "bad-op"
   | _ => "bad-op"
 
 def showTd : TdEv → String
